@@ -5,10 +5,20 @@ V = os.path.dirname(os.path.dirname(os.path.abspath(__file__)))
 sys.path.insert(0, os.path.join(V, "lib"))
 import propcfg, manifest_text as mt
 
+import subprocess
+def hook_commits():
+    try:
+        o = subprocess.run(["git", "-C", "/repo", "log", "--format=%h %s", "--grep=^verif hooks"], capture_output=True, text=True).stdout
+        return [l.strip() for l in o.splitlines() if l.strip()][::-1]
+    except Exception:
+        return mt.HOOK_COMMITS
+
 ids = [json.loads(l)["id"] for l in open(os.path.join(V, "properties.jsonl"))]
 checks, na = [], []
 for pid in ids:
-    if pid in propcfg.PROPS and pid in mt.CHECKS:
+    if pid in propcfg.MODS and propcfg.claimed(pid):
+        mt.CHECKS[pid] = propcfg.MODS[pid].MANIFEST
+    if pid in propcfg.PROPS and pid in mt.CHECKS and propcfg.claimed(pid):
         c = mt.CHECKS[pid]
         checks.append(dict(
             property_id=pid,
@@ -18,17 +28,17 @@ for pid in ids:
             replay_cmd_template=f"./check {pid} --replay {{path}}",
             engine="lean4-proof+correspondence",
             level_claimed=dict(category="proof", text=c["text"], design_ref=c.get("design_ref", "DESIGN.md §5 " + pid)),
-            level_note=c["note"],
+            level_note=c.get("note", mt.COMMON_NOTE),
             technique=c.get("technique", "Lean 4 theorems over an executable model; model tied to the Go code by a differential correspondence run"),
         ))
     else:
-        na.append(dict(property_id=pid, reason=mt.NOT_YET.get(pid, "check not yet built in this round; design in DESIGN.md §5 (nothing is claimed for it)")))
+        na.append(dict(property_id=pid, reason=getattr(propcfg.MODS.get(pid), "NOT_YET", None) or mt.NOT_YET.get(pid, "check not yet built in this round; design in DESIGN.md §5 (nothing is claimed for it)")))
 m = dict(
     version=1,
     setup_cmd="cd /verif && ./setup.sh",
     hooks=dict(guard="verif", enable="go build -tags verif (harness module replaces github.com/usnistgov/dastard => /repo)",
                baseline_off_cmd="cd /repo && GOFLAGS=-mod=mod GOPROXY=off GOSUMDB=off GOTOOLCHAIN=local go test -vet=off -count=1 -timeout 25m ./...",
-               source_commits=mt.HOOK_COMMITS, add_only=True),
+               source_commits=hook_commits(), add_only=True),
     engines=[dict(name="lean4-proof+correspondence", path="check",
                   serves_properties=[c["property_id"] for c in checks],
                   kind_free_text="Lean 4 machine-checked theorems about executable models (lean/DastardV), audited with #print axioms; "
